@@ -415,9 +415,13 @@ def gen_writer(rng, version, threads, nrec_hint=0, logs=True, with_tai=False):
         w['pad'] = rng.pick([0, 0, 1, 7, 8, 63, 64, 128, rng.randint(0, 300), 4096 - 0x120 % 4096 if rng.chance(0.1) else 0])
         return w
     w['chunks'] = sorted(rng.randrange(0, nrec_hint + 1) for _ in range(rng.randint(0, 4)))
-    w['filler1'] = _gen_filler(rng).hex()
-    w['filler2'] = (rng.randbytes(rng.randint(0, 24)) if rng.chance(0.5) else b'').hex()
-    w['gaps'] = [(rng.randbytes(rng.randint(0, 16)) if rng.chance(0.3) else b'').hex() for _ in range(len(w['chunks']) + 1)]
+    def partial(tag):
+        # bytes that look like the beginning of the scanned tag right before the tag itself
+        return tag[:rng.randint(1, len(tag) - 1)] if rng.chance(0.35) else b''
+    w['filler1'] = (_gen_filler(rng) + partial(writer.STACKSHOT_END)).hex()
+    w['filler2'] = ((rng.randbytes(rng.randint(0, 24)) if rng.chance(0.5) else b'') + partial(writer.TAG_THREADMAP)).hex()
+    w['gaps'] = [((rng.randbytes(rng.randint(0, 16)) if rng.chance(0.3) else b'') + partial(writer.TAG_EVENTS)).hex()
+                 for _ in range(len(w['chunks']) + 1)]
     w['cpu_info'] = {'cpus': [rng.ident() for _ in range(rng.randint(0, 5))], 'n': rng.randrange(0, 1 << 20)}
     w['plist_fmt'] = rng.pick(['binary', 'binary', 'xml'])
     if rng.chance(0.5):
